@@ -303,6 +303,44 @@ func TestVerifC12(t *testing.T) {
 		}
 		nUse := 2 + r.Intn(6)
 		var sets [][]netip.Prefix
+		if si%3 == 0 {
+			// Constructed FNV collisions: the hash runs over an undelimited stream of
+			// (prefix length, address bytes) items, 5 bytes for IPv4 and 17 for IPv6, so the canonical
+			// lists {v4, v6} and {v6, v4} cut from the same 22 bytes hash equal although they differ.
+			// Sequences over such pairs drive the collision branch of addIp/addSourceIp.
+			var b [22]byte
+			for i := range b {
+				b[i] = byte(r.U64())
+			}
+			b[0] = byte(r.Intn(32))                        // bits of A's v4 and of B's v6
+			b[17] = b[0] + 1 + byte(r.Intn(int(32-b[0]))) // bits of B's v4, > b[0] so B stays [v6, v4]
+			b[5] = b[0] + byte(r.Intn(int(129-int(b[0])))) // bits of A's v6, >= b[0] so A stays [v4, v6]
+			var a4, b4 [4]byte
+			var a16, b16 [16]byte
+			copy(a4[:], b[1:5])
+			copy(a16[:], b[6:22])
+			copy(b16[:], b[1:17])
+			copy(b4[:], b[18:22])
+			A := []netip.Prefix{netip.PrefixFrom(netip.AddrFrom4(a4), int(b[0])), netip.PrefixFrom(netip.AddrFrom16(a16), int(b[5]))}
+			B := []netip.Prefix{netip.PrefixFrom(netip.AddrFrom16(b16), int(b[0])), netip.PrefixFrom(netip.AddrFrom4(b4), int(b[17]))}
+			if hashLpmSet(canonicalizePrefixes(A)) == hashLpmSet(canonicalizePrefixes(B)) && !prefixesEqual(canonicalizePrefixes(A), canonicalizePrefixes(B)) {
+				stats.Inc("share.constructed_collision")
+				pool = append(pool, A, B)
+				// make sure the colliding pair is used repeatedly and alternately
+				pat := [][]int{{0, 1, 1}, {0, 1, 0, 1}, {1, 0, 0, 1, 1}, {0, 1, 1, 0, 0}}[r.Intn(4)]
+				for _, k := range pat {
+					src := A
+					if k == 1 {
+						src = B
+					}
+					s := append([]netip.Prefix(nil), src...)
+					if r.Bool() {
+						s[0], s[1] = s[1], s[0]
+					}
+					sets = append(sets, s)
+				}
+			}
+		}
 		for i := 0; i < nUse; i++ {
 			base := pool[r.Intn(len(pool))]
 			s := append([]netip.Prefix(nil), base...)
@@ -341,7 +379,7 @@ func TestVerifC12(t *testing.T) {
 				f := &config_parser.Function{Name: "dip"}
 				ob := &routing.Outbound{Name: "proxy"}
 				var err error
-				if i%2 == 0 {
+				if (i+si)%2 == 0 {
 					err = b.addIp(f, s, ob)
 				} else {
 					err = b.addSourceIp(f, s, ob)
